@@ -5,6 +5,7 @@ import (
 	"sort"
 
 	"github.com/elastos/Elastos.ELA/common"
+	ctypes "github.com/elastos/Elastos.ELA/core/types/common"
 	"github.com/elastos/Elastos.ELA/core/types/interfaces"
 	"github.com/elastos/Elastos.ELA/mempool"
 )
@@ -47,6 +48,20 @@ func sortedHashes(m map[common.Uint256]interfaces.Transaction) []common.Uint256 
 // It returns the first violated clause in a fixed order (deterministic).
 func checkPool(pool *mempool.TxPool, s *mempool.VerifSnapshot, feeOf func(interfaces.Transaction) common.Fixed64,
 	lookup func(common.Uint256) interfaces.Transaction) *finding {
+	f, _ := checkPoolSoft(pool, s, feeOf, lookup)
+	return f
+}
+
+// checkPoolSoft additionally returns findings the oracle can continue past.
+func checkPoolSoft(pool *mempool.TxPool, s *mempool.VerifSnapshot, feeOf func(interfaces.Transaction) common.Fixed64,
+	lookup func(common.Uint256) interfaces.Transaction) (*finding, []*finding) {
+	var soft []*finding
+	f := checkPoolInner(pool, s, feeOf, lookup, &soft)
+	return f, soft
+}
+
+func checkPoolInner(pool *mempool.TxPool, s *mempool.VerifSnapshot, feeOf func(interfaces.Transaction) common.Fixed64,
+	lookup func(common.Uint256) interfaces.Transaction, soft *[]*finding) *finding {
 
 	hashes := sortedHashes(s.TxList)
 
@@ -108,7 +123,19 @@ func checkPool(pool *mempool.TxPool, s *mempool.VerifSnapshot, feeOf func(interf
 			if _, named := slotKind[slot]; named {
 				continue
 			}
-			for _, key := range keys[slot] {
+			ks := keys[slot]
+			if slot == "DPoSActivateCancel" && tx.TxType() == ctypes.CancelProducer {
+				// This key is not a function of the transaction: it is the node public
+				// key the DPoS state holds for the producer NOW.  When a block updates
+				// that producer's node key while the cancel is pooled, the index keeps
+				// the key of admission time.  Reported once, then the held key is taken.
+				if held := heldKeys(s, slot, h); len(held) == 1 && len(ks) == 1 && held[0] != ks[0] {
+					*soft = append(*soft, &finding{sig: "index:DPoSActivateCancel:key-not-refreshed-after-producer-update",
+						detail: fmt.Sprintf("pooled %s is indexed under node key %s, the producer's node key is now %s", txDesc(tx), held[0], ks[0])})
+					ks = held
+				}
+			}
+			for _, key := range ks {
 				if f := add(slot, key, h); f != nil {
 					return f
 				}
@@ -203,6 +230,22 @@ func checkPool(pool *mempool.TxPool, s *mempool.VerifSnapshot, feeOf func(interf
 		return &finding{"budget:mismatch", fmt.Sprintf("proposalsUsedAmount %d, sum over pooled proposals %d", s.ProposalsUsedAmount, budget)}
 	}
 	return nil
+}
+
+func heldKeys(s *mempool.VerifSnapshot, slot string, h common.Uint256) []string {
+	var out []string
+	for _, sl := range s.Slots {
+		if sl.Name != slot {
+			continue
+		}
+		for k, v := range sl.Keys {
+			if v == h {
+				out = append(out, k)
+			}
+		}
+	}
+	sort.Strings(out)
+	return out
 }
 
 // conflictsWithPool tells whether tx shares a key with a pooled transaction,
